@@ -100,6 +100,14 @@ def materialise(layout, pool, sims, work, mult=1):
                 with open(pp, 'w') as f:
                     json.dump(r if j % 2 == 0 else [r], f)     # bare record / list of records
                 parts.append(pp)
+            if ci % 3 != 2:
+                # a part that cannot be read (the zero-byte or cut-off file a killed
+                # task leaves behind) is skipped by merge-results: the merged file
+                # holds the readable parts, each once
+                bp = os.path.join(tmpd, 'killed.json')
+                with open(bp, 'w') as f:
+                    f.write('' if ci % 3 == 0 else '[{"inputs": {"size": [3, 3]}, "resul')
+                parts.insert(1 + ci % max(1, len(parts)), bp)
             p = base + '-merged.json.gz'
             res = CliRunner().invoke(cli, ['merge-results', '-o', p] + parts)
             if res.exit_code != 0:
